@@ -1,9 +1,82 @@
 import TongoModel.CellHashSpec
+import TongoProofs.Lemmas.Bits
 /-! Helper lemmas for C02: the per-level loop of `newImmutableCell` (model: `levelStep`/`computeInfo`) computes the
 hashes and depths of the definition (`Spec.hashLevel`/`Spec.depthLevel`), for one cell whose children are already
 resolved. Facts about 3-bit masks are closed by `decide` over the finite table. -/
 open Tongo
 namespace Tongo.CellHashLemmas
+
+/-! ### the byte formulas of the specification equal the model's helpers -/
+
+theorem bitsToNat_replicate_false (k : Nat) : Bits.bitsToNat (List.replicate k false) = 0 := by
+  induction k with
+  | zero => rfl
+  | succ k ih => rw [List.replicate_succ, Bits.bitsToNat_cons, ih]; simp
+
+theorem byteOfBits_eq (bs : List Bool) :
+    Spec.byteOfBits bs = UInt8.ofNat (Bits.bitsToNat (bs ++ List.replicate (8 - bs.length) false)) := by
+  unfold Spec.byteOfBits
+  rw [Bits.bitsToNat_append, bitsToNat_replicate_false, List.length_replicate, Nat.add_zero]
+  congr 2
+  unfold Bits.bitsToNat
+  congr 1
+  funext acc b
+  cases b <;> rfl
+
+theorem bitsToBytes_cons_step (h : Bool) (t : List Bool) :
+    Bits.bitsToBytes (h :: t) = Spec.byteOfBits ((h :: t).take 8) :: Bits.bitsToBytes ((h :: t).drop 8) := by
+  rw [Bits.bitsToBytes, byteOfBits_eq]
+  simp
+
+theorem packBytes_eq : ∀ (n : Nat) (bits : List Bool), bits.length = n → Spec.packBytes bits = Bits.bitsToBytes bits := by
+  intro n
+  induction n using Nat.strong_induction_on with
+  | _ n ih =>
+    intro bits hn
+    cases bits with
+    | nil => simp [Spec.packBytes, Bits.bitsToBytes]
+    | cons h t =>
+      rw [bitsToBytes_cons_step, ← ih ((h :: t).drop 8).length (by simp at hn ⊢; omega) _ rfl]
+      unfold Spec.packBytes
+      have hlen : ((h :: t).length + 7) / 8 = (((h :: t).drop 8).length + 7) / 8 + 1 := by
+        simp only [List.length_cons, List.length_drop]; omega
+      rw [hlen, List.range_succ_eq_map, List.map_cons, List.map_map]
+      simp only [Nat.mul_zero, List.drop_zero]
+      congr 1
+      apply List.map_congr_left
+      intro i _
+      simp only [Function.comp, List.drop_drop]
+      congr 3
+      omega
+
+theorem paddedData_eq (bits : List Bool) : Spec.paddedData bits = Bits.toppedUp bits := by
+  unfold Spec.paddedData Bits.toppedUp Bits.addTag
+  split
+  · exact packBytes_eq _ _ rfl
+  · rw [packBytes_eq _ _ rfl]; simp
+
+theorem depthBytes_eq (d : Nat) : Spec.depthBytes d = be16 d := by
+  unfold Spec.depthBytes be16
+  congr 1
+  apply UInt8.toNat_inj.mp
+  simp
+
+theorem descr_eq (ty mask : Nat) (bits : List Bool) (nrefs l : Nat) :
+    Spec.descr ty mask bits nrefs l = [d1 nrefs (ty != 0) (Spec.maskBelow mask l), d2 bits.length] := by
+  unfold Spec.descr d1 d2
+  congr 2
+  · by_cases h : ty = 0 <;> simp [h]
+  · congr 1
+    split <;> omega
+
+theorem childrenPart_eq (ty : Nat) (kh : List (Nat → List UInt8)) (kd : List (Nat → Nat)) (l : Nat) :
+    Spec.childrenPart ty kh kd l =
+      (kd.map (· (Spec.childLevel ty l))).flatMap be16 ++ (kh.map (· (Spec.childLevel ty l))).flatten := by
+  unfold Spec.childrenPart
+  congr 2
+  funext d
+  exact depthBytes_eq d
+
 
 theorem bitsToBytes_length (l : List Bool) : (Bits.bitsToBytes l).length = (l.length + 7) / 8 := by
   fun_induction Bits.bitsToBytes l with
@@ -110,7 +183,7 @@ theorem step_tail (k : Kids cs kh kd) {i : Nat} (hi : i ≤ 3) (head : List UInt
   by_cases hov : 0 < kd.length ∧ maxDepth ≤ List.foldl max 0 (List.map (fun x => x (Spec.childLevel ty i)) kd)
   · rw [if_pos hov, if_pos hov]
   · rw [if_neg hov, if_neg hov]
-    simp only [pure, Spec.childrenPart, Spec.nodeDepth, List.append_assoc]
+    simp only [pure, childrenPart_eq, Spec.nodeDepth, List.append_assoc]
     congr 4
     cases kd <;> simp
 
@@ -133,7 +206,7 @@ theorem step_sig (hm : mask < 8) (hty : ty ≠ tyPruned) (k : Kids cs kh kd) {i 
     subst ha0
     simp only [levelStep, hs, Bool.not_true, Bool.false_eq_true, if_false, Nat.lt_irrefl, if_true, pure_bind]
     rw [step_tail k hi]
-    simp only [Spec.hashLevel, Spec.depthLevel, hty, false_and, if_false, reprNoRefs, Spec.descr, f2, k.hlen]
+    simp only [Spec.hashLevel, Spec.depthLevel, hty, false_and, if_false, reprNoRefs, descr_eq, paddedData_eq, f2, k.hlen]
     rfl
   | succ j =>
     obtain ⟨g1, g2, g3, g4, g5, g6⟩ := mask_facts mask hm j (by omega)
@@ -145,7 +218,7 @@ theorem step_sig (hm : mask < 8) (hty : ty ≠ tyPruned) (k : Kids cs kh kd) {i 
     simp only [levelStep, hs, Bool.not_true, Bool.false_eq_true, if_false, Nat.not_lt_zero, Nat.sub_zero, hprev, pure_bind]
     rw [if_neg hne, step_tail k hi]
     simp only [Spec.hashLevel, Spec.depthLevel, hty, false_and, if_false, hsp, Bool.not_true, Bool.false_eq_true,
-      Spec.descr, f2, k.hlen]
+      descr_eq, paddedData_eq, f2, k.hlen]
 
 
 theorem inv_init : Inv H ty mask bits kh kd 0 (0, [], []) :=
@@ -162,7 +235,7 @@ theorem inv_sig (hm : mask < 8) {i : Nat} (hi : i ≤ 3) {s}
     by_cases hli : l = i
     · subst hli
       simp only [f5, Nat.add_sub_cancel]
-      rw [List.getElem?_append_right (by rw [inv.hlen]; exact Nat.le_refl _), inv.hlen]
+      rw [List.getElem?_append_right (Nat.le_of_eq inv.hlen), inv.hlen]
       simp
     · have hl' : l < i := by omega
       obtain ⟨g1, g2, g3, g4, g5, g6⟩ := mask_facts mask hm l (by omega)
@@ -177,7 +250,7 @@ theorem inv_sig (hm : mask < 8) {i : Nat} (hi : i ≤ 3) {s}
     by_cases hli : l = i
     · subst hli
       simp only [f5, Nat.add_sub_cancel]
-      rw [List.getElem?_append_right (by rw [inv.dlen]; exact Nat.le_refl _), inv.dlen]
+      rw [List.getElem?_append_right (Nat.le_of_eq inv.dlen), inv.dlen]
       simp
     · have hl' : l < i := by omega
       have := inv.dget l hl'
@@ -306,7 +379,7 @@ theorem pruned_facts2 : ∀ m, m < 8 → ∀ l, l < 5 →
 theorem spec_pruned (H) (mask : Nat) (bits : List Bool) (hm : mask < 8) (l : Nat) (hl : l ≤ 4) :
     Spec.hashLevel H tyPruned mask bits [] [] l =
       (if l < Spec.level mask then Spec.storedHash bits (Spec.popcount (Spec.maskBelow mask l))
-       else H (Spec.descr tyPruned mask bits 0 (Spec.level mask) ++ Bits.toppedUp bits)) ∧
+       else H (Spec.descr tyPruned mask bits 0 (Spec.level mask) ++ Spec.paddedData bits)) ∧
     Spec.depthLevel tyPruned mask bits [] l =
       (if l < Spec.level mask then Spec.storedDepth bits (Spec.popcount mask) (Spec.popcount (Spec.maskBelow mask l))
        else 0) := by
@@ -360,7 +433,7 @@ theorem computeInfo_pr (H) (mask : Nat) (bits : List Bool) (hm : mask < 8)
     -- the buffer is the data bytes followed by zero padding; everything read lies inside the data bytes
     have hbuf : parsedBuf bits = Bits.bitsToBytes bits ++ List.replicate (bufBytes - (Bits.bitsToBytes bits).length) 0 := rfl
     rw [hbuf]
-    simp only [Spec.storedHash, Spec.storedDepth]
+    simp only [Spec.storedHash, Spec.storedDepth, packBytes_eq _ bits rfl]
     generalize Bits.bitsToBytes bits = b at *
     generalize List.replicate (bufBytes - b.length) (0 : UInt8) = pad
     have h1 : 2 + (k + 1) * 32 ≤ (b ++ pad).length := by simp only [List.length_append]; omega
@@ -377,7 +450,7 @@ theorem computeInfo_pr (H) (mask : Nat) (bits : List Bool) (hm : mask < 8)
       rfl
   · have he : ¬ (LevelMask.hashIndex (LevelMask.apply mask l) ≠ LevelMask.hashIndex mask) := fun h => hlv (f2.mp h)
     rw [if_neg he, if_neg he, if_neg hlv, if_neg hlv]
-    simp [reprNoRefs, Spec.descr, f6]
+    simp [reprNoRefs, descr_eq, paddedData_eq, f6]
 
 
 end Tongo.CellHashLemmas
